@@ -122,7 +122,7 @@ class Gen:
         r = self.rng
         stories = [self.new_story() for _ in range(n_stories)]
         doc = B.ro_doc(stories, pattern=r.choice(B.PATTERNS), message_id=r.choice(['1', '1', '1', '0', '007', '4294967296']) if self.odd_message_ids else '1',
-                       ed_start=r.choice([None, None, '2021-03-04T09:00:00', '2020-02-29T23:59:30']))
+                       ed_start=r.choice([None, None, '2021-03-04T09:00:00', '2020-02-29T23:59:30', '\n      2021-03-04T09:00:00\n    ', '2021-03-04 09:00:00.5', ' 2021-03-04T09:00:00Z ']))
         # the running order's own envelope varies like any other (roCreate first, fields missing, extras)
         return vary_envelope(r, doc)
 
@@ -269,7 +269,7 @@ def _random_message(g, state, message_id, cls=None, p=0.8):
     if cls == 'RunningOrderReplace':
         return cls, B.ro_replace([g.new_story() for _ in range(r.randrange(0, 4))], pattern=r.choice(B.PATTERNS),
                                  slug=r.choice(['replaced slug', 'replaced slug', '  Late   News ', '\n padded \n', 'Ünï']),
-                                 ed_start=r.choice([None, '2021-03-04T09:30:00']), **kw)
+                                 ed_start=r.choice([None, '2021-03-04T09:30:00', '\n  2021-03-04T09:30:00\n']), **kw)
     if cls == 'MetaDataReplace':
         ch = []
         if r.random() < 0.7:
